@@ -340,12 +340,22 @@ inductive MKind where
   | shared
   deriving DecidableEq, Repr, Inhabited
 
-/-- a symbol object (`id` = identity) and its current name; generic in the type of names -/
+/-- a symbol object (`id` = identity) and its current name; generic in the type of names.
+`cb` = the names (as spelt) occurring in the CodeBlocks below the scoping node that owns the symbol's
+table: `rename_symbol` refuses a symbol whose name occurs there, compared after `_normalize`
+(lower-casing), because the text of a CodeBlock is not updated by a rename. -/
 structure MSym (N : Type) where
   id : Nat
   name : N
   kind : MKind
+  cb : List N := []
   deriving DecidableEq, Repr, Inhabited
+
+/-- `old_name in [self._normalize(sname) for sname in cblock.get_symbol_names()]` -/
+def mentioned {N} [DecidableEq N] (norm : N → N) (cb : List N) (n : N) : Prop := norm n ∈ cb.map norm
+
+instance {N} [DecidableEq N] (norm : N → N) (cb : List N) (n : N) : Decidable (mentioned norm cb n) := by
+  unfold mentioned; infer_instance
 
 def mnames {N} (l : List (MSym N)) : List N := l.map (·.name)
 
@@ -366,8 +376,10 @@ def replaceName {N} [DecidableEq N] (old new : N) : List N → List N
 
 /-- `_add_symbols_from_table` for one symbol `o` of `other`.  `fresh existing root` is
 `next_available_name(root, other_table=other)` with `existing` = names of this table, of its
-ancestors (`outer`) and of `other`.  `none` = `check_for_clashes` raised (no renaming possible). -/
-def mergeOne {N} [DecidableEq N] (fresh : List N → N → N) (outer : List N)
+ancestors (`outer`) and of `other`.  `cbSelf` = names in the CodeBlocks below this table's node (for
+`routine_node`: the whole routine); the incoming symbol is checked against its own scope's CodeBlocks
+(`o.cb`).  `none` = `check_for_clashes` raised (no renaming possible). -/
+def mergeOne {N} [DecidableEq N] (fresh : List N → N → N) (norm : N → N) (outer cbSelf : List N)
     (st : MState N) (o : MSym N) : Option (MState N) :=
   match st.self.find? (fun s => s.name = o.name) with
   | none => some { st with self := st.self ++ [o] }
@@ -375,32 +387,32 @@ def mergeOne {N} [DecidableEq N] (fresh : List N → N → N) (outer : List N)
     if s.kind = .shared ∧ o.kind = .shared then some st
     else
       let n' := fresh (mnames st.self ++ outer ++ st.otherNames) o.name
-      if o.kind = .free then
+      if o.kind = .free ∧ ¬ mentioned norm o.cb o.name then
         some { self := st.self ++ [{ o with name := n' }], otherNames := replaceName o.name n' st.otherNames }
-      else if s.kind = .free then
+      else if s.kind = .free ∧ ¬ mentioned norm cbSelf s.name then
         some { self := renameNm s.name n' st.self ++ [o], otherNames := st.otherNames }
       else none
 
-def mergeGo {N} [DecidableEq N] (fresh : List N → N → N) (outer : List N) :
+def mergeGo {N} [DecidableEq N] (fresh : List N → N → N) (norm : N → N) (outer cbSelf : List N) :
     List (MSym N) → MState N → Option (MState N)
   | [], st => some st
-  | o :: r, st => match mergeOne fresh outer st o with
+  | o :: r, st => match mergeOne fresh norm outer cbSelf st o with
     | none => none
-    | some st' => mergeGo fresh outer r st'
+    | some st' => mergeGo fresh norm outer cbSelf r st'
 
-def mergeTable {N} [DecidableEq N] (fresh : List N → N → N) (outer : List N)
+def mergeTable {N} [DecidableEq N] (fresh : List N → N → N) (norm : N → N) (outer cbSelf : List N)
     (self : List (MSym N)) (other : List (MSym N)) : Option (List (MSym N)) :=
-  (mergeGo fresh outer other { self := self, otherNames := mnames other }).map (·.self)
+  (mergeGo fresh norm outer cbSelf other { self := self, otherNames := mnames other }).map (·.self)
 
 /-- `for schedule in node.walk(Schedule): whole_routine_scope.merge(sched_table)`; the routine's own
 table comes first and is merged into an empty table -/
-def mergeScopes {N} [DecidableEq N] (fresh : List N → N → N) (outer : List N) :
+def mergeScopes {N} [DecidableEq N] (fresh : List N → N → N) (norm : N → N) (outer cbSelf : List N) :
     List (MSym N) → List (List (MSym N)) → Option (List (MSym N))
   | self, [] => some self
   | self, t :: ts =>
-    match mergeTable fresh outer self t with
+    match mergeTable fresh norm outer cbSelf self t with
     | none => none
-    | some self' => mergeScopes fresh outer self' ts
+    | some self' => mergeScopes fresh norm outer cbSelf self' ts
 
 /-- the name under which the symbol object `i` is written -/
 def nameOfId {N} (l : List (MSym N)) (i : Nat) : Option N := (l.find? (·.id == i)).map (·.name)
